@@ -82,7 +82,9 @@ BellmanBad(owner, row, val, xs, own, maxI) ==
         THEN LET W == SumW(row, n)
                  gg == GcdRow(row, n, W)
                  q == W \div gg
-                 u == IF q * (maxI + 2) < 2000 THEN 1000000
+                 \* (the first test keeps q * (maxI + 2) itself inside 32 bits: q may be 10^6, maxI above 2146)
+                 u == IF maxI + 2 > 2000000 \div q THEN 0
+                      ELSE IF q * (maxI + 2) < 2000 THEN 1000000
                       ELSE IF q * (maxI + 2) < 200000 THEN 10000
                       ELSE IF q * (maxI + 2) < 2000000 THEN 1000 ELSE 0
              IN  IF u = 0 THEN -1
